@@ -278,6 +278,21 @@ async fn check_c03(inner: &Arc<InMemory>, seeds: &[SeedChunk], original: &BTreeM
     if !foreign.is_empty() {
         sim::violation("C03/foreign-rows", format!("{} rows that were never stored are reachable", foreign.len()));
     }
+    // (i') a row is queryable through a time-range lookup: the catalog's [min, max] of every listed chunk is the true
+    // span of the rows in its file
+    {
+        let entries = match local {
+            Some(l) => l.list_chunks().await.unwrap_or_default(),
+            None => raw_client(inner).list_chunks().await.unwrap_or_default(),
+        };
+        for e in entries.iter().filter(|e| !dummy(&e.chunk_path)) {
+            if let Some((mn, mx)) = idx.bounds.get(&e.chunk_path) {
+                if (e.min_timestamp, e.max_timestamp) != (*mn, *mx) {
+                    sim::violation("C03/chunk-bounds-wrong", format!("{}: the catalog says [{}, {}], its rows span [{mn}, {mx}] (rows outside the recorded span are invisible to time-range lookups)", short(&e.chunk_path), e.min_timestamp, e.max_timestamp));
+                }
+            }
+        }
+    }
     // (iii') both backends, any number of merge steps: a merged chunk sits above every level its rows came from
     for p in final_listed.iter().filter(|p| p.contains("/compacted/")) {
         let mine: BTreeSet<i64> = idx.ids.get(p).map(|v| v.iter().cloned().collect()).unwrap_or_default();
@@ -358,6 +373,14 @@ fn scen_c20(_spec: RunSpec) -> ScenFut {
         let n_chunks = sim::w_range(3, 16) as usize;
         let buckets = sim::w_range(1, 3) as usize;
         let levels: Vec<u32> = (0..n_chunks).map(|_| [0u32, 0, 1, 2, 3][sim::w(5) as usize]).collect();
+        // one dataset in thirty: 33..40 level-0 chunks in a single hour (more than any per-job cap one might think of)
+        let (n_chunks, buckets, levels) = if sim::w(30) == 29 {
+            sim::probe("more-than-32-l0-chunks-in-one-hour");
+            let n = sim::w_range(33, 40) as usize;
+            (n, 1usize, vec![0u32; n])
+        } else {
+            (n_chunks, buckets, levels)
+        };
         let base = ((sim::EPOCH_NS as i64 - 48 * HOUR) / HOUR) * HOUR;
         let setup_meta: Arc<dyn MetadataClient> = match &local {
             Some(l) => l.clone(),
